@@ -1583,6 +1583,55 @@ pub fn scen_keys(ctx: &Ctx) -> i32 {
         s.ops.push(Op::Iter(2));
         seqs.push(s);
     }
+    // directed: every key collides (1 or 2 buckets) and the keys differ from a base key in exactly one
+    // byte — each byte position of the 8-byte encodings, each encoded length of vu64 (1…9 bytes, values
+    // 2^(7k) ± and ≥ 2^56 differing only in the top byte): any weakness of the key comparison shows
+    for (di, kt) in [Kt::U64, Kt::I64, Kt::Vu64].into_iter().enumerate() {
+        for nb in [1u64, 2] {
+            let mut r = rng.fork(9000 + di as u64 * 2 + nb);
+            let enc = |x: u64| -> B {
+                match kt {
+                    Kt::Vu64 => B::Hex(crate::imp::vu64_encode(x)),
+                    _ => B::Hex(x.to_le_bytes().to_vec()),
+                }
+            };
+            let bases: Vec<u64> = vec![0, r.next(), r.next() | (1 << 63), (1u64 << 56) | (r.next() >> 8), 0x0101_0101_0101_0101];
+            let mut keys: Vec<u64> = Vec::new();
+            for b0 in &bases {
+                keys.push(*b0);
+                for byte in 0..8 {
+                    keys.push(b0 ^ (1u64 << (8 * byte)));
+                    keys.push(b0 ^ (0x80u64 << (8 * byte)));
+                }
+            }
+            if kt == Kt::Vu64 {
+                for k in 1..9 {
+                    let t = 1u64 << (7 * k);
+                    keys.extend([t - 1, t, t + 1]);
+                }
+            }
+            keys.sort();
+            keys.dedup();
+            let mut ops = Vec::new();
+            for (j, x) in keys.iter().enumerate() {
+                ops.push(Op::Put(enc(*x), B::Hex((j as u32).to_le_bytes().to_vec())));
+            }
+            ops.push(Op::Len);
+            for x in &keys {
+                ops.push(Op::Get(enc(*x)));
+            }
+            for x in keys.iter().step_by(3) {
+                ops.push(Op::Del(enc(*x)));
+            }
+            ops.push(Op::Len);
+            for x in &keys {
+                ops.push(Op::Get(enc(*x)));
+            }
+            ops.push(Op::Iter(0));
+            ops.push(Op::Iter(2));
+            seqs.push(Seq { kt, params: Params::buckets(nb), ops });
+        }
+    }
     let mut b = run_batch(ctx, seqs, |_| RunOpts { cmp_end: true, ..Default::default() }, &["api", "oracle", "bytes"], "keys");
     b.failures.extend(failures);
     finish(ctx, "keys", &b, vec![("gen_evaluations", g.evaluations.to_string())])
@@ -1879,7 +1928,7 @@ pub fn scen_fault(ctx: &Ctx) -> i32 {
         .map(|i| {
             let mut r = rng.fork(i as u64);
             let kt = *r.pick(&Kt::ALL);
-            let n = *r.pick(&[8u64, 16, 64, 512]);
+            let n = *r.pick(&[8u64, 16, 64, 512, 4096]);
             let mut p = Profile::basic(kt, n, r.range(3, 40) as usize);
             p.w = [60, 0, 10, 0, 0, 0, 0, 0, 0, 0, 0, 2, 0, 0];
             p.val_mode = *r.pick(&[1u8, 2, 2, 3]);
@@ -1949,11 +1998,21 @@ pub fn scen_fault(ctx: &Ctx) -> i32 {
                         c += if thorough { 4096 } else { 4096 * 8 };
                     }
                 }
+                // limits that refuse exactly one / exactly two of the three files: between the file lengths
+                let mut sl = lens.clone();
+                sl.sort();
+                sl.dedup();
+                let mut between: Vec<u64> = Vec::new();
+                for w in sl.windows(2) {
+                    between.extend([w[0] + 1, (w[0] + w[1]) / 2]);
+                }
+                th.extend(between.iter().cloned());
                 th.sort();
                 th.dedup();
                 if !thorough && th.len() > 14 {
                     let mut r = Rng::new(*salt);
                     let mut keep: Vec<u64> = vec![0, th[th.len() - 1]];
+                    keep.extend(between.iter().cloned());
                     while keep.len() < 14 {
                         keep.push(*r.pick(&th));
                     }
